@@ -71,10 +71,12 @@ def job_sets(draw):
         sps.extend({"k": i} for i in members)
     if draw(st.booleans()):
         sps.extend({"k": i} for i in draw(st.lists(st.integers(0, 60), max_size=8)))
+    if draw(st.integers(0, 2)) == 0:
+        sps.insert(draw(st.integers(0, len(sps))), {})  # the empty state point is a valid one
     return sps[:12] or [{"k": 0}]
 
 
-OPS = ["open", "access_sp", "mutate_caller", "init", "init", "reinit", "fresh"]
+OPS = ["open", "access_sp", "mutate_caller", "init", "init", "reinit", "fresh", "lookup_uninit"]
 
 
 @st.composite
@@ -201,6 +203,18 @@ def run_case(case, ctx):
                 if prev != cur:
                     mms.append(Mismatch("reinit_rewrites", f"second init() rewrote a valid state point file ({sps[i]!r}): inode/mtime/bytes changed"))
             check_handle(i, "after init")
+        elif name == "lookup_uninit":
+            # a job that was only opened (and maybe read), never initialised, is unknown by id -- also
+            # to the Project object it was opened with
+            get_handle(i)
+            if i not in inited:
+                try:
+                    project.open_job(id=ids[i])
+                    mms.append(Mismatch("unknown_id", f"open_job(id=<id of never initialised {sps[i]!r}>) succeeded in the session that only opened it"))
+                except KeyError:
+                    pass
+                except Exception as e:
+                    mms.append(Mismatch("unknown_id", f"open_job(id=<id of never initialised {sps[i]!r}>) raised {type(e).__name__}, expected KeyError"))
         elif name == "fresh":
             project = signac.Project(root)
             handles.clear()
@@ -211,6 +225,10 @@ def run_case(case, ctx):
     got_iter = [j.id for j in fresh]
     if len(fresh) != len(want) or set(got_iter) != want or len(got_iter) != len(want):
         mms.append(Mismatch("listing", f"fresh project lists {sorted(got_iter)} (len={len(fresh)}), expected {sorted(want)}"))
+    try:
+        fresh.check()
+    except Exception as e:
+        mms.append(Mismatch("check_fails", f"check() of a workspace holding only jobs created by init() raised {type(e).__name__}: {getattr(e, 'job_ids', e)}"))
     for i in range(n):
         member = fresh.open_job(sps[i]) in fresh
         if member != (i in inited):
@@ -298,6 +316,7 @@ def run(ctx):
     fam = families()
     if ctx.worker == 0:
         ctx.apply({"sps": [{"k": i} for i in fam[4][0]] + [{"k": i} for i in fam[2][0]], "ops": [{"op": "open", "i": 0}, {"op": "mutate_caller", "i": 0}, {"op": "init", "i": 0}, {"op": "reinit", "i": 0}, {"op": "fresh", "i": 0}, {"op": "init", "i": 1}], "final_init": True})
+        ctx.apply({"sps": [{}, {"k": 1}], "ops": [{"op": "open", "i": 0}, {"op": "access_sp", "i": 1}, {"op": "lookup_uninit", "i": 1}, {"op": "init", "i": 0}, {"op": "fresh", "i": 0}, {"op": "access_sp", "i": 0}], "final_init": False})
         ctx.apply({"sps": [{"a": 1.0, "b": [True, None, {"c": "é"}]}, {"a": 1}, {"a": True}, {}], "ops": [{"op": "init", "i": 0}, {"op": "init", "i": 1}, {"op": "init", "i": 2}, {"op": "init", "i": 3}, {"op": "reinit", "i": 0}], "final_init": False})
     drive(ctx, cases(), 400 if ctx.tier == "quick" else 1500, ctx.apply)
     drive(ctx, cases().map(lambda c: dict(c, xproc=True)), 2 if ctx.tier == "quick" else 12, ctx.apply)
